@@ -57,6 +57,8 @@ const (
 	pvByte2         // s2[i]
 	pvBConst        // byte / rune constant c
 	pvBool          // c != 0
+	pvStr1          // the first text
+	pvStr2          // the second text
 )
 
 type pv struct {
@@ -126,6 +128,7 @@ type pconf struct {
 	sym    *psym
 	setP   bool // the reference sets P = i in the current iteration
 	exited bool
+	exitK  int // after the exit: length == i - exitK (0: tested at the top, -1: tested at the bottom after i was used)
 	iZero  bool
 	word   []psym
 }
@@ -389,8 +392,8 @@ func (x *prefixInterp) binop(b *ssa.BinOp, st *pconf) pv {
 			}
 			return pv{kind: pvConst, c: n}
 		case pvLen:
-			if st.exited && d < 0 && d >= -1 {
-				return pv{kind: pvRel, k: -d} // i == l at the exit: l-1 == i-1
+			if st.exited && d <= 0 && d >= -1 {
+				return pv{kind: pvRel, k: st.exitK - d} // the length is i - exitK at the exit
 			}
 		}
 		return pv{kind: pvUnk}
@@ -411,9 +414,9 @@ func (x *prefixInterp) binop(b *ssa.BinOp, st *pconf) pv {
 			if l.kind == pvLen {
 				rk = r
 			}
-			t, ok := x.cmpInt(b.Op, pv{kind: pvRel, k: rk.k}, pv{kind: pvRel, k: 0}, st)
+			t, ok := x.cmpInt(b.Op, pv{kind: pvRel, k: rk.k}, pv{kind: pvRel, k: st.exitK}, st)
 			if l.kind == pvLen {
-				t, ok = x.cmpInt(b.Op, pv{kind: pvRel, k: 0}, pv{kind: pvRel, k: rk.k}, st)
+				t, ok = x.cmpInt(b.Op, pv{kind: pvRel, k: st.exitK}, pv{kind: pvRel, k: rk.k}, st)
 			}
 			if ok {
 				return boolPV(t)
@@ -498,12 +501,16 @@ func (x *prefixInterp) witness(st *pconf) string {
 
 func (x *prefixInterp) judge(r pv, st *pconf) {
 	x.returns++
+	if os.Getenv("MUXLINT_DEBUG_PREFIX") != "" {
+		fmt.Fprintf(os.Stderr, "judge %s exited=%v exitK=%d iZero=%v ret=%+v spec=%+v\n", x.witness(st), st.exited, st.exitK, st.iZero, r, st.spec)
+	}
 	want, hasP, ok := x.expected(st)
 	if !ok {
 		x.bad = append(x.bad, "returns while the two texts still agree and neither has ended (texts "+x.witness(st)+")")
 		return
 	}
-	isPos := r.kind == pvRel && r.k == 0 || (st.exited && r.kind == pvLen) || (st.iZero && r.kind == pvConst && r.c == 0)
+	isLen := r.kind == pvLen || (st.exited && r.kind == pvRel && r.k == st.exitK) || (st.exited && st.iZero && r.kind == pvConst && r.c == 0)
+	isPos := (!st.exited && r.kind == pvRel && r.k == 0) || (st.exited && isLen) || (st.iZero && r.kind == pvConst && r.c == 0)
 	isStart := (r.eqP && hasP) || (st.setP && r.kind == pvRel && r.k == 0)
 	isNone := r.kind == pvNeg && r.c != -1
 	desc := func() string {
@@ -540,7 +547,7 @@ func (x *prefixInterp) judge(r pv, st *pconf) {
 			x.bad = append(x.bad, "for the texts "+x.witness(st)+" the split point must be the first differing position but the function returns "+desc())
 		}
 	case wantLen:
-		if !(r.kind == pvLen || (r.kind == pvRel && r.k == 0)) {
+		if !isLen {
 			if r.kind == pvUnk || (r.kind == pvConst && !st.iZero) {
 				x.fail("a returned value could not be placed")
 				return
@@ -559,15 +566,30 @@ func (x *prefixInterp) confKey(b *ssa.BasicBlock, st *pconf) string {
 		}
 		parts = append(parts, st.env[phi].key())
 	}
-	return fmt.Sprintf("%d|%s|%v|%v", b.Index, strings.Join(parts, ","), st.spec, st.iZero)
+	last := "-"
+	if n := len(st.word); n > 0 {
+		last = fmt.Sprint(st.word[n-1]) // the function may look back at the last byte of the common part
+	}
+	return fmt.Sprintf("%d|%s|%v|%v|%s", b.Index, strings.Join(parts, ","), st.spec, st.iZero, last)
 }
 
 func (x *prefixInterp) isLoopHeader(b, pred *ssa.BasicBlock) bool {
 	return pred != nil && b.Dominates(pred)
 }
 
+type pframe struct {
+	f     *ssa.Function
+	depth int
+	ret   func(v pv, st *pconf) // nil in the function under analysis: a return is judged
+}
+
 // run executes from the start of block b, entered from pred
 func (x *prefixInterp) run(b, pred *ssa.BasicBlock, st *pconf) {
+	x.exec(b, pred, st, &pframe{f: x.f}, 0)
+}
+
+// exec executes block b from instruction index `from` (0 = from the top, phis included)
+func (x *prefixInterp) exec(b, pred *ssa.BasicBlock, st *pconf, fr *pframe, from int) {
 	for {
 		x.steps++
 		if x.steps > 400000 {
@@ -577,97 +599,114 @@ func (x *prefixInterp) run(b, pred *ssa.BasicBlock, st *pconf) {
 		if x.undecided != "" {
 			return
 		}
-		// phis
-		vals := map[*ssa.Phi]pv{}
-		for _, in := range b.Instrs {
-			phi, ok := in.(*ssa.Phi)
-			if !ok {
-				break
-			}
-			for i, p := range b.Preds {
-				if p == pred {
-					vals[phi] = x.val(phi.Edges[i], st)
+		if from == 0 {
+			vals := map[*ssa.Phi]pv{}
+			for _, in := range b.Instrs {
+				phi, ok := in.(*ssa.Phi)
+				if !ok {
+					break
+				}
+				for i, p := range b.Preds {
+					if p == pred {
+						vals[phi] = x.val(phi.Edges[i], st)
+					}
 				}
 			}
-		}
-		back := x.isLoopHeader(b, pred)
-		if back {
-			// an iteration is over: the reference consumes the byte, positions age
-			if st.sym == nil {
-				x.fail("a loop that consumes no byte")
+			back := x.isLoopHeader(b, pred)
+			if back && fr.depth > 0 {
+				x.fail("a loop inside a helper")
 				return
 			}
-			nspec, setP := st.spec.afterByte(st.sym.c1)
-			rebase := false
-			for _, v := range vals {
-				if v.kind == pvRel && v.k == -1 {
-					rebase = true
-				}
-			}
-			if !rebase {
-				x.fail("the loop counter is not advanced by one")
-				return
-			}
-			for phi, v := range vals {
-				switch v.kind {
-				case pvRel:
-					if v.k == 0 {
-						v.eqP = setP
-					} else if setP {
-						v.eqP = false
-					}
-					nk := v.k + 1
-					if nk >= 2 {
-						v = pv{kind: pvOld, k: 2, eqP: v.eqP}
-					} else {
-						v.k = nk
-					}
-				case pvOld:
-					if setP {
-						v.eqP = false
-					}
-					v.k = 2
-				case pvNeg:
-					v.eqP = false
-				}
-				vals[phi] = v
-			}
-			st.word = append(st.word, *st.sym)
-			st.spec = nspec
-			st.sym = nil
-			st.setP = false
-			st.iZero = false
-		}
-		if !back {
-			// the loop counter enters the loop as 0: from here on it is "the current position"
+			// the loop counter: the phi that is advanced by one on the back edge
+			var ind *ssa.Phi
 			for phi := range vals {
 				for _, e := range phi.Edges {
 					if bo, ok := e.(*ssa.BinOp); ok && bo.Op == token.ADD && bo.X == ssa.Value(phi) {
 						if k, isK := bo.Y.(*ssa.Const); isK && k.Value != nil && k.Int64() == 1 {
-							if v := vals[phi]; v.kind == pvConst && v.c == 0 {
-								vals[phi] = pv{kind: pvRel, k: 0}
-							} else {
-								x.fail("the loop counter does not start at 0")
-								return
-							}
+							ind = phi
 						}
 					}
 				}
 			}
-		}
-		for phi, v := range vals {
-			st.env[phi] = v
-		}
-		if back {
-			key := x.confKey(b, st)
-			if x.visited[key] {
-				return
+			if back {
+				// an iteration is over: the reference consumes the byte, positions age
+				if st.sym == nil {
+					x.fail("a loop that consumes no byte")
+					return
+				}
+				if !st.sym.eq {
+					st.word = append(st.word, *st.sym)
+					st.sym = nil
+					x.bad = append(x.bad, "for the texts "+x.witness(st)+" the function goes on comparing past the first position where the two texts differ (that byte is skipped without being compared)")
+					return
+				}
+				nspec, setP := st.spec.afterByte(st.sym.c1)
+				if ind == nil {
+					x.fail("the loop has no counter that is advanced by one")
+					return
+				}
+				old, had := st.env[ind]
+				nv := vals[ind]
+				if !had || old.kind != pvRel || nv.kind != pvRel || old.k-nv.k != 1 {
+					x.fail("the loop counter is not advanced by one")
+					return
+				}
+				for phi, v := range vals {
+					switch v.kind {
+					case pvRel:
+						if v.k == 0 {
+							v.eqP = setP
+						} else if setP {
+							v.eqP = false
+						}
+						nk := v.k + 1
+						if nk >= 2 {
+							v = pv{kind: pvOld, k: 2, eqP: v.eqP}
+						} else {
+							v.k = nk
+						}
+					case pvOld:
+						if setP {
+							v.eqP = false
+						}
+						v.k = 2
+					case pvNeg:
+						v.eqP = false
+					}
+					vals[phi] = v
+				}
+				st.word = append(st.word, *st.sym)
+				st.spec = nspec
+				st.sym = nil
+				st.setP = false
+				st.iZero = false
+			} else if ind != nil && fr.depth == 0 {
+				// the counter enters the loop as 0 (or as -1 when the index is counter+1: `for i := range n`)
+				switch v := vals[ind]; {
+				case v.kind == pvConst && v.c == 0:
+					vals[ind] = pv{kind: pvRel, k: 0}
+				case v.kind == pvNeg && v.c == -1:
+					vals[ind] = pv{kind: pvRel, k: 1}
+				default:
+					x.fail("the loop counter does not start at 0")
+					return
+				}
 			}
-			x.visited[key] = true
-			x.configs++
+			for phi, v := range vals {
+				st.env[phi] = v
+			}
+			if back {
+				key := x.confKey(b, st)
+				if x.visited[key] {
+					return
+				}
+				x.visited[key] = true
+				x.configs++
+			}
 		}
 		var next *ssa.BasicBlock
-		for _, in := range b.Instrs {
+		for idx := from; idx < len(b.Instrs); idx++ {
+			in := b.Instrs[idx]
 			switch y := in.(type) {
 			case *ssa.Phi, *ssa.DebugRef:
 			case *ssa.BinOp:
@@ -683,43 +722,33 @@ func (x *prefixInterp) run(b, pred *ssa.BasicBlock, st *pconf) {
 				st.env[y] = x.val(y.X, st)
 			case *ssa.ChangeType:
 				st.env[y] = x.val(y.X, st)
-			case *ssa.Lookup:
-				idx := x.val(y.Index, st)
-				par, isPar := y.X.(*ssa.Parameter)
-				if !isPar || idx.kind != pvRel || idx.k != 0 || st.sym == nil {
-					if os.Getenv("MUXLINT_DEBUG_PREFIX") != "" {
-						fmt.Fprintf(os.Stderr, "lookup %s: isPar=%v idx=%v sym=%v\n", y.String(), isPar, idx, st.sym)
-					}
-					st.env[y] = pv{kind: pvUnk}
-					break
-				}
-				if par == x.f.Params[0] {
-					st.env[y] = pv{kind: pvByte1}
+			case *ssa.Lookup, *ssa.Index:
+				var tx, ix ssa.Value
+				if lk, ok := y.(*ssa.Lookup); ok {
+					tx, ix = lk.X, lk.Index
 				} else {
-					st.env[y] = pv{kind: pvByte2}
+					tx, ix = y.(*ssa.Index).X, y.(*ssa.Index).Index
 				}
-			case *ssa.Index:
-				idx := x.val(y.Index, st)
-				par, isPar := y.X.(*ssa.Parameter)
-				if !isPar || idx.kind != pvRel || idx.k != 0 || st.sym == nil {
-					if os.Getenv("MUXLINT_DEBUG_PREFIX") != "" {
-						fmt.Fprintf(os.Stderr, "lookup %s: isPar=%v idx=%v sym=%v\n", y.String(), isPar, idx, st.sym)
+				text, pos := x.val(tx, st), x.val(ix, st)
+				if st.sym == nil && !st.exited && fr.depth == 0 && pos.kind == pvRel && pos.k == 0 && (text.kind == pvStr1 || text.kind == pvStr2) {
+					// the first look at position i in this round: one successor per letter of the alphabet
+					for ai := range prefixAlphabet {
+						c := st.clone()
+						sy := prefixAlphabet[ai]
+						c.sym = &sy
+						_, c.setP = c.spec.afterByte(sy.c1)
+						x.exec(b, pred, c, fr, idx)
 					}
-					st.env[y] = pv{kind: pvUnk}
-					break
+					return
 				}
-				if par == x.f.Params[0] {
-					st.env[y] = pv{kind: pvByte1}
-				} else {
-					st.env[y] = pv{kind: pvByte2}
-				}
+				st.env[y.(ssa.Value)] = x.byteAt(text, pos, st)
 			case *ssa.Call:
 				if bi, isB := y.Call.Value.(*ssa.Builtin); isB {
+					res := pv{kind: pvUnk}
 					switch bi.Name() {
 					case "len":
-						if _, isPar := y.Call.Args[0].(*ssa.Parameter); isPar {
-							st.env[y] = pv{kind: pvLen}
-							continue
+						if v := x.val(y.Call.Args[0], st); v.kind == pvStr1 || v.kind == pvStr2 {
+							res = pv{kind: pvLen}
 						}
 					case "min":
 						all := true
@@ -729,15 +758,39 @@ func (x *prefixInterp) run(b, pred *ssa.BasicBlock, st *pconf) {
 							}
 						}
 						if all {
-							st.env[y] = pv{kind: pvLen}
-							continue
+							res = pv{kind: pvLen}
 						}
 					}
+					st.env[y] = res
+					continue
 				}
-				st.env[y] = pv{kind: pvUnk}
+				g := y.Call.StaticCallee()
+				if g == nil || len(g.Blocks) == 0 || !an.IsLibrary(g) || fr.depth >= 3 || y.Call.IsInvoke() {
+					st.env[y] = pv{kind: pvUnk}
+					continue
+				}
+				// a helper of the module: entered with the abstract arguments
+				args := y.Call.Args
+				if len(args) != len(g.Params) {
+					st.env[y] = pv{kind: pvUnk}
+					continue
+				}
+				for pi, par := range g.Params {
+					st.env[par] = x.val(args[pi], st)
+				}
+				callInstr, bb, pp, resume := y, b, pred, idx+1
+				x.exec(g.Blocks[0], nil, st, &pframe{f: g, depth: fr.depth + 1, ret: func(v pv, st2 *pconf) {
+					st2.env[callInstr] = v
+					x.exec(bb, pp, st2, fr, resume)
+				}}, 0)
+				return
 			case *ssa.Return:
 				if len(y.Results) != 1 {
 					x.fail("a return without a single result")
+					return
+				}
+				if fr.ret != nil {
+					fr.ret(x.val(y.Results[0], st), st)
 					return
 				}
 				x.judge(x.val(y.Results[0], st), st)
@@ -754,7 +807,7 @@ func (x *prefixInterp) run(b, pred *ssa.BasicBlock, st *pconf) {
 					}
 					break
 				}
-				// the two nondeterministic choices: which text is shorter, and whether the shorter one goes on
+				// the nondeterministic choices: which text is shorter, whether the shorter one goes on, whether a text is empty
 				bo, isB := y.Cond.(*ssa.BinOp)
 				if !isB {
 					x.fail("a branch the analysis cannot decide: " + y.Cond.String())
@@ -763,15 +816,42 @@ func (x *prefixInterp) run(b, pred *ssa.BasicBlock, st *pconf) {
 				l, r := x.val(bo.X, st), x.val(bo.Y, st)
 				if l.kind == pvLen && r.kind == pvLen {
 					for succ := 0; succ < 2; succ++ {
-						x.run(b.Succs[succ], b, st.clone())
+						x.exec(b.Succs[succ], b, st.clone(), fr, 0)
 					}
 					return
 				}
-				iLeft := l.kind == pvRel && l.k == 0 && r.kind == pvLen
-				iRight := r.kind == pvRel && r.k == 0 && l.kind == pvLen
-				if (iLeft || iRight) && st.sym == nil && !st.exited {
+				if (l.kind == pvLen && r.kind == pvConst || r.kind == pvLen && l.kind == pvConst) && st.sym == nil && !st.exited && st.iZero {
+					// a test of a length against a small constant before the loop: on the branch a length of 0 takes, the
+					// shorter text is empty (it ends at position 0)
+					kc := r
+					if l.kind == pvConst {
+						kc = l
+					}
+					zeroTruth, ok := x.cmpInt(bo.Op, pv{kind: pvConst, c: 0}, kc, &pconf{})
+					if l.kind == pvConst {
+						zeroTruth, ok = x.cmpInt(bo.Op, kc, pv{kind: pvConst, c: 0}, &pconf{})
+					}
+					if !ok {
+						x.fail("a length test the analysis cannot read: " + y.Cond.String())
+						return
+					}
+					for succ := 0; succ < 2; succ++ {
+						c := st.clone()
+						if (succ == 0) == zeroTruth {
+							c.exited = true
+							c.exitK = 0
+						}
+						x.exec(b.Succs[succ], b, c, fr, 0)
+					}
+					return
+				}
+				iLeft := l.kind == pvRel && (l.k == 0 || l.k == -1) && r.kind == pvLen
+				iRight := r.kind == pvRel && (r.k == 0 || r.k == -1) && l.kind == pvLen
+				if (iLeft || iRight) && !st.exited && fr.depth == 0 {
 					op := bo.Op
+					ik := l.k
 					if iRight { // l <op> i  ==  i <op'> l
+						ik = r.k
 						switch op {
 						case token.LSS:
 							op = token.GTR
@@ -783,7 +863,7 @@ func (x *prefixInterp) run(b, pred *ssa.BasicBlock, st *pconf) {
 							op = token.LEQ
 						}
 					}
-					var goOn int // successor taken when i < l
+					var goOn int // successor taken when the position is below the length
 					switch op {
 					case token.LSS, token.NEQ:
 						goOn = 0
@@ -793,19 +873,75 @@ func (x *prefixInterp) run(b, pred *ssa.BasicBlock, st *pconf) {
 						x.fail("a loop condition the analysis cannot read: " + y.Cond.String())
 						return
 					}
-					for i := range prefixAlphabet {
-						c := st.clone()
-						s := prefixAlphabet[i]
-						c.sym = &s
-						_, c.setP = c.spec.afterByte(s.c1)
-						x.run(b.Succs[goOn], b, c)
+					if (ik == 0) != (st.sym == nil) {
+						x.fail("a loop test at a place the analysis does not expect")
+						return
 					}
+					x.exec(b.Succs[goOn], b, st.clone(), fr, 0)
 					c := st.clone()
+					if c.sym != nil && !c.sym.eq {
+						c.word = append(c.word, *c.sym)
+						c.sym = nil
+						x.bad = append(x.bad, "for the texts "+x.witness(c)+" the function goes on comparing past the first position where the two texts differ (that byte is skipped without being compared)")
+						return
+					}
+					if c.sym != nil {
+						// tested at the bottom: the byte of this round is consumed, the reference moves on
+						nspec, setP := c.spec.afterByte(c.sym.c1)
+						for k2, v2 := range c.env {
+							if v2.kind == pvRel && v2.k == 0 {
+								v2.eqP = setP
+							} else if setP {
+								v2.eqP = false
+							}
+							c.env[k2] = v2
+						}
+						c.word = append(c.word, *c.sym)
+						c.spec = nspec
+						c.sym = nil
+						c.setP = false
+					}
 					c.exited = true
-					x.run(b.Succs[1-goOn], b, c)
+					c.exitK = ik
+					x.exec(b.Succs[1-goOn], b, c, fr, 0)
 					return
 				}
-				x.fail(fmt.Sprintf("a branch the analysis cannot decide: %s (operands %v, %v)", y.Cond.String(), l, r))
+				if st.exited && (l.kind == pvLen && r.kind == pvConst || r.kind == pvLen && l.kind == pvConst) {
+					lk, rk := l, r
+					if lk.kind == pvLen {
+						lk = pv{kind: pvRel, k: st.exitK}
+					} else {
+						rk = pv{kind: pvRel, k: st.exitK}
+					}
+					if t, ok := x.cmpInt(bo.Op, lk, rk, st); ok {
+						if t {
+							next = b.Succs[0]
+						} else {
+							next = b.Succs[1]
+						}
+						break
+					}
+				}
+				if (iLeft || iRight) && st.exited {
+					// after the end of the shorter text: i == l
+					lk, rk := l, r
+					if lk.kind == pvLen {
+						lk = pv{kind: pvRel, k: st.exitK}
+					}
+					if rk.kind == pvLen {
+						rk = pv{kind: pvRel, k: st.exitK}
+					}
+					t, ok := x.cmpInt(bo.Op, lk, rk, st)
+					if ok {
+						if t {
+							next = b.Succs[0]
+						} else {
+							next = b.Succs[1]
+						}
+						break
+					}
+				}
+				x.fail(fmt.Sprintf("a branch the analysis cannot decide: %s", y.Cond.String()))
 				return
 			default:
 				if v, isV := in.(ssa.Value); isV {
@@ -817,8 +953,37 @@ func (x *prefixInterp) run(b, pred *ssa.BasicBlock, st *pconf) {
 			x.fail("a block without a successor")
 			return
 		}
-		pred, b = b, next
+		pred, b, from = b, next, 0
 	}
+}
+
+// byteAt: text[index] — decided only for the current position of one of the two texts
+func (x *prefixInterp) byteAt(text, idx pv, st *pconf) pv {
+	if st.exited && idx.kind == pvRel && idx.k == st.exitK+1 && len(st.word) > 0 && (text.kind == pvStr1 || text.kind == pvStr2) {
+		// the last byte of the common part, after the shorter text has ended: its class is known
+		last := st.word[len(st.word)-1]
+		cl := last.c1
+		if text.kind == pvStr2 {
+			cl = last.c2
+		}
+		switch cl {
+		case pOpen:
+			return pv{kind: pvBConst, c: '{'}
+		case pClose:
+			return pv{kind: pvBConst, c: '}'}
+		}
+		return pv{kind: pvBConst, c: 'a'}
+	}
+	if idx.kind != pvRel || idx.k != 0 || st.sym == nil {
+		return pv{kind: pvUnk}
+	}
+	switch text.kind {
+	case pvStr1:
+		return pv{kind: pvByte1}
+	case pvStr2:
+		return pv{kind: pvByte2}
+	}
+	return pv{kind: pvUnk}
 }
 
 // splitPointFunc: the (string, string) int function of the syntax package that Segment.Similarity calls
@@ -858,7 +1023,7 @@ func ruleSplitPointAutomaton(c *Ctx, rule string) {
 		return
 	}
 	x := &prefixInterp{f: f, visited: map[string]bool{}}
-	st := &pconf{env: map[ssa.Value]pv{}, iZero: true}
+	st := &pconf{env: map[ssa.Value]pv{f.Params[0]: {kind: pvStr1}, f.Params[1]: {kind: pvStr2}}, iZero: true}
 	x.run(f.Blocks[0], nil, st)
 	switch {
 	case x.undecided != "" && len(x.bad) == 0:
@@ -867,6 +1032,7 @@ func ruleSplitPointAutomaton(c *Ctx, rule string) {
 	case len(x.bad) > 0:
 		sort.Strings(x.bad)
 		msgs := dedupStrings(x.bad)
+		sort.SliceStable(msgs, func(i, j int) bool { return len(msgs[i]) < len(msgs[j]) }) // shortest witnesses first
 		if len(msgs) > 3 {
 			msgs = msgs[:3]
 		}
